@@ -27,6 +27,7 @@ type SecurityAdapters struct {
 	securityChain *ports.SecurityChain
 	logger        logger.StyledLogger
 	rateLimits    config.ServerRateLimits
+	maxBodySize   int64
 }
 
 // CreateChainMiddleware creates middleware that applies the full security chain with enhanced logging
@@ -57,6 +58,12 @@ func (s *SecurityAdapters) CreateChainMiddleware() func(http.Handler) http.Handl
 					s.writeRejection(w, result, err)
 					return
 				}
+			}
+			// The chain can only judge the declared Content-Length. A chunked body has none
+			// (-1), so cap what can actually be read: the proxy buffers the body before
+			// dispatching, hits the cap and fails the request without forwarding anything.
+			if s.maxBodySize > 0 && r.Body != nil && r.Body != http.NoBody {
+				r.Body = http.MaxBytesReader(w, r.Body, s.maxBodySize)
 			}
 			withAccessLogging.ServeHTTP(w, r)
 		})
@@ -155,6 +162,7 @@ func NewApplication(
 		securityChain: securityChain,
 		logger:        logger,
 		rateLimits:    cfg.Server.RateLimits,
+		maxBodySize:   cfg.Server.RequestLimits.MaxBodySize,
 	}
 
 	// Create route registry
